@@ -92,6 +92,57 @@ fn derived_needles(tag: &str, v: &[u8]) -> Vec<(String, Vec<u8>)> {
     out.push((format!("{}_x5c", tag), v.iter().map(|b| b ^ 0x5c).collect()));
     out.push((format!("{}_tail8rev", tag), v[v.len() - 8..].iter().rev().cloned().collect()));
     out.push((format!("{}_head8rev", tag), v[..8].iter().rev().cloned().collect()));
+    if tag == "es" {
+        out.extend(hash_state_needles(tag, v));
+    }
+    out
+}
+
+/// A "pre-keyed HMAC" kept for speed does not hold the key in any byte-wise transformed form: it holds the SHA-2
+/// chaining values after the ipad / opad block. Whoever has them can compute every HMAC under that key. The memory
+/// image of a hasher of the same crate that has absorbed exactly that block contains the same words; windows of that
+/// image that differ from a fresh hasher almost everywhere are used as needles.
+fn hash_state_needles(tag: &str, key: &[u8]) -> Vec<(String, Vec<u8>)> {
+    use sha2::Digest;
+    fn image<T>(t: &T) -> Vec<u8> {
+        let n = std::mem::size_of_val(t);
+        let p = t as *const T as *const u8;
+        (0..n).map(|i| unsafe { std::ptr::read_volatile(p.add(i)) }).collect()
+    }
+    fn windows(name: String, fresh: &[u8], keyed: &[u8], w: usize) -> Vec<(String, Vec<u8>)> {
+        let mut out = Vec::new();
+        let mut off = 0;
+        while off + w <= keyed.len() && out.len() < 3 {
+            let diff = (0..w).filter(|i| keyed[off + i] != fresh[off + i]).count();
+            if diff * 8 >= w * 7 {
+                out.push((format!("{}{}", name, out.len()), keyed[off..off + w].to_vec()));
+                off += w;
+            } else {
+                off += 4;
+            }
+        }
+        out
+    }
+    let mut out = Vec::new();
+    for (pad, pn) in [(0x36u8, "i"), (0x5cu8, "o")] {
+        macro_rules! one {
+            ($h:ty, $block:expr, $w:expr, $nm:expr) => {{
+                if key.len() <= $block {
+                    let mut b = vec![pad; $block];
+                    for (i, k) in key.iter().enumerate() {
+                        b[i] ^= k;
+                    }
+                    let fresh = <$h>::new();
+                    let mut keyed = <$h>::new();
+                    keyed.update(&b);
+                    out.extend(windows(format!("{}_hs{}{}", tag, $nm, pn), &image(&fresh), &image(&keyed), $w));
+                }
+            }};
+        }
+        one!(sha2::Sha256, 64, 32, "256");
+        one!(sha2::Sha384, 128, 64, "384");
+        one!(sha2::Sha512, 128, 64, "512");
+    }
     out
 }
 
@@ -1048,6 +1099,30 @@ impl Session {
                     note(format!("afterwards:{}", after), &mut bad);
                 }
                 f.ok().kv("mism", bad).kv("first", if first_bad.is_empty() { "-".to_string() } else { first_bad.replace(' ', "_") }).kv("n", n);
+            }
+            "open_many" => {
+                // the same (short, hence cheaply refused) delivery presented n times to one receiver
+                let n = a.u("n");
+                let Some(cr) = self.cr.get_mut(a.s("ctx")) else {
+                    f.skip("noctx");
+                    return f;
+                };
+                let (ct, aad) = (a.b("ct").to_vec(), a.b("aad").to_vec());
+                let (mut open_err, mut limit, mut other, mut okc) = (0u64, 0u64, 0u64, 0u64);
+                for _ in 0..n {
+                    match cr.open_alloc(std::hint::black_box(&ct), &aad) {
+                        None => {
+                            f.skip("noalloc");
+                            return f;
+                        }
+                        Some(Ok(_)) => okc += 1,
+                        Some(Err(hpke::HpkeError::OpenError)) => open_err += 1,
+                        Some(Err(hpke::HpkeError::MessageLimitReached)) => limit += 1,
+                        Some(Err(_)) => other += 1,
+                    }
+                }
+                f.ok().kv("open_error", open_err).kv("limit", limit).kv("other", other).kv("accepted", okc);
+                state_r(&mut f, cr.as_ref());
             }
             "key_mill" => {
                 let (made, bad) = self.kem.as_ref().unwrap().key_mill(a.b("ikm"), a.u("n"), (a.u("window") as usize).clamp(2, 200));
